@@ -387,7 +387,15 @@ def write_bytecode_file(
     if isinstance(code_obj, types.CodeType):
         fp.write(marshal.dumps(code_obj))
     else:
-        fp.write(xdis.marsh.dumps(code_obj, python_version=version))
+        fp.write(
+            xdis.marsh.dumps(
+                code_obj,
+                python_version=version,
+                # the unmarshaller reads no co_posonlyargcount for these
+                # 3.8 pre-release magics, so none is written
+                has_posonlyargcount=magic_int not in (3400, 3401, 3410, 3411),
+            )
+        )
     fp.close()
 
 
